@@ -25,13 +25,15 @@ def plan(tier, seed):
         ops = [L[n] for n in ["D23", "D32c", "Dg2c", "P3"]]
         seeds2 = [L[n] for n in ["D22c", "D23", "D32", "S33", "Td3", "I3", "Sc2", "K22", "H2c", "F4", "R0", "R1"]]
         small = [L["D22c"], L["D23"], L["Dg2"]]
+        ops1 = [L[n] for n in ["D22", "D22c", "D33", "D23", "D32c", "D13", "D31", "TL22", "S23", "S33", "Dg2c", "Dg3",
+                               "Td3", "I2", "I3", "Sc3", "P3", "P2", "H2c", "K22", "F1", "Hc22", "R0", "R1"]]
         return [
-            dict(seeds=all_leaves, operands=all_leaves, small=small, acts=CONSTRUCTORS, lvl=1, dim=18,
+            dict(seeds=all_leaves, operands=ops1, small=small, acts=CONSTRUCTORS, lvl=1, dim=18,
                  forms=forms, stride=1),
             dict(seeds=all_leaves, operands=ops, small=small, acts=tern, lvl=1, dim=12, forms=forms),
-            dict(seeds=seeds2, operands=ops, small=small, acts=CONSTRUCTORS, lvl=2, dim=6, forms=forms, stride=7),
+            dict(seeds=seeds2, operands=ops, small=small, acts=CONSTRUCTORS, lvl=2, dim=6, forms=forms, stride=11),
             dict(seeds=all_leaves, operands=ops, small=small, acts=CONSTRUCTORS | tern, lvl=3, dim=9,
-                 forms=forms, stride=5, simulate=40),
+                 forms=forms, stride=5, simulate=16),
         ]
     ops = [L[n] for n in ["D22", "D23", "D32c", "Dg2c", "I2", "P3", "Sc2", "S33", "Td3", "R0", "R1"]]
     small = [L["D22c"], L["Dg2"], L["D23"], L["I3"]]
